@@ -761,3 +761,115 @@ def prop_C09(repo, tier):
 
 PROPS['C09'] = prop_C09
 TECHNIQUE['C09'] = 'static analysis: abstract interpretation of the collection merge loop over a symbolic reader list (collectionflow)'
+
+
+def prop_C10(repo, tier):
+    from . import rules_shape
+    res = CheckResult('C10', tier)
+    prog = program(repo)
+    rules_shape.sorted_ctors(res, prog)
+    rules_shape.lt_numeric(res, prog)
+    rules_shape.order_preserved(res, prog)
+    rules_shape.collection_ctor_siblings(res, prog)
+    from .analysis import coll_results
+    for r in coll_results(repo):
+        if not r['ok']:
+            res.error(r['error'])
+        else:
+            for f in r['findings']:
+                if f['rule'] == 'FOLD-LOOP':
+                    res.add('ORDER-PRESERVED', f['func'], f['construct'][:160], False, f['detail'], f['file'], f['line'], f['witness'])
+    res.floors = {'SORTED-CTORS': 3, 'LT-NUMERIC': 4, 'ID-IS-INT': 3, 'ORDER-PRESERVED': 2}
+    res.explanation = (
+        'Static (structural) analysis of the premises of permutation invariance: each of the three collection constructors hands '
+        'cls(...) the result of sorted() over all constructed readers with no key/reverse (SORTED-CTORS, sibling agreement); '
+        'MosReader.__lt__ and MosFile.__lt__ compare message_id with < under @total_ordering (LT-NUMERIC); message_id flows through int() '
+        'and is stored/returned unchanged by the reader (ID-IS-INT: 9 < 10 < 100); nothing between construction and the fold re-orders '
+        'the list (ORDER-PRESERVED, also checked on the interpreted merge loop). NOT decided: equality of merged output (C09 + this).')
+    res.assumptions = ['message IDs within one collection are distinct integers (sorted() is then a total order independent of input order)']
+    res.trusted_base = TRUSTED
+    return res
+
+
+def prop_C11(repo, tier):
+    from . import rules_pred
+    res = CheckResult('C11', tier)
+    prog = program(repo)
+    rules_pred.no_assert(res, prog)
+    rules_pred.accept_table(res, prog)
+    res.floors = {'ACCEPT-TABLE': 60, 'POST-STATE': 2, 'NO-ASSERT': 1}
+    res.explanation = (
+        'Static analysis: the statements of MosCollection._validate are evaluated abstractly over the finite input space '
+        '{empty} + same_id x n_create{0,1,2,3+} x n_delete{0,1,2,3+} x allow_incomplete (the code touches these only through comparisons '
+        'with constants, truthiness and all(...), so the abstraction is exact); the resulting truth table, including which exception '
+        'leaves __init__, must equal the specification (ACCEPT-TABLE, with the empty list rejected by InvalidMosCollection rather than '
+        'IndexError). NO-ASSERT: no assert statement anywhere in the package (python -O). POST-STATE: the accepted collection keeps the '
+        'unique roCreate as running order and the order-preserving remainder as readers.')
+    res.assumptions = ['MosReader.mos_type is the class object returned by classification (C18 READER-FIELDS)']
+    res.trusted_base = TRUSTED[:1]
+    return res
+
+
+def prop_C18(repo, tier):
+    from . import rules_shape
+    res = CheckResult('C18', tier)
+    prog = program(repo)
+    rules_shape.ctor_siblings(res, prog)
+    rules_shape.collection_ctor_siblings(res, prog)
+    rules_shape.sorted_ctors(res, prog)
+    rules_shape.restore_pair(res, prog)
+    rules_shape.fresh_read(res, prog)
+    rules_shape.all_pages(res, prog)
+    cls_sets = {}
+    for r in null_one(res, repo, 'classify'):
+        cls_sets[r['name']] = (tuple(r.get('classes', [])), tuple(sorted({x['result'] for x in r['returns'] if x['result'].startswith('raise')} - {'raise OSError'})))
+    ok = len(set(cls_sets.values())) == 1 and len(cls_sets) == 3
+    res.rules['SOURCE-AGREE'] = 'the interpreted classification outcomes (classes returned, library exceptions raised) are identical for from_file, from_string and from_s3'
+    res.add('SOURCE-AGREE', 'MosFile.from_*', 'outcome sets of the three constructors', ok, '' if ok else f'outcomes differ: {cls_sets}')
+    res.floors = {'CTOR-SIBLINGS': 2, 'RESTORE-PAIR': 3, 'READER-FIELDS': 8, 'ALL-PAGES': 5, 'FRESH-READ': 1}
+    res.explanation = (
+        'Static (structural + interpreted) analysis: the file and string constructors have the same shape and from_s3 delegates to '
+        'from_string (CTOR-SIBLINGS); the interpreted classification outcomes agree for the three sources (SOURCE-AGREE); the three '
+        'collection constructors share one pipeline (COLL-SIBLINGS/SORTED-CTORS); each reader restores with the same-named constructor '
+        'of the classified class and exactly the original arguments (RESTORE-PAIR), records the message id / ro id / class it reports '
+        '(READER-FIELDS) and re-creates the object on every access (FRESH-READ); the S3 listing visits every page and key with the '
+        'suffix as only filter (ALL-PAGES). NOT decided: ElementTree on bytes vs str; boto3 behaviour.')
+    res.assumptions = ['boto3 paginator/Body API as used today; ElementTree.fromstring accepts bytes and str alike']
+    res.trusted_base = TRUSTED[:1]
+    return res
+
+
+def prop_C19(repo, tier):
+    from . import rules_shape
+    res = CheckResult('C19', tier)
+    prog = program(repo)
+    raises = set()
+    for r in null_one(res, repo, 'classify', 'from_file'):
+        raises = {x['result'].split(' ', 1)[1] for x in r['returns'] if x['result'].startswith('raise')}
+    if not raises:
+        res.error('LOOP-CONTAIN: may-raise set of MosFile.from_file is empty (analysis problem)')
+    insp = null_one(res, repo, 'inspect')
+    inspect_ok = all(not [f for f in r['findings'] if f['rule'] == 'INSPECT-TOTAL'] for r in insp)
+    rules_shape.cli_rules(res, prog, raises, inspect_ok)
+    rules_shape.detect_completed(res, prog)
+    res.extra['from_file_may_raise'] = sorted(raises)
+    res.floors = {'LOOP-CONTAIN': 6, 'FLAG-PLUMB': 4, 'OUTPUT-EXACT': 3, 'EXIT-MAP': 3}
+    res.explanation = (
+        'Static analysis: the may-raise set of MosFile.from_file is computed by the exception-flow interpreter (today: MosInvalidXML, '
+        'UnknownMosFileType, OSError) and must be covered by the handler inside each per-file loop of detect_or_inspect, which must '
+        'continue with the next file (LOOP-CONTAIN); no inspect() has an exceptional exit (from C20); the merge flags reach the library '
+        'unchanged (FLAG-PLUMB); the written/printed value is str(mc)/mc (OUTPUT-EXACT); errors map to stderr + status 2 (EXIT-MAP); '
+        'detect prints the class name with (completed) on the completed branch (DETECT-PRINT). NOT decided: argparse parsing and '
+        'byte-exact console output.')
+    res.assumptions = ['argparse behaviour; boto3 errors are outside the claim']
+    res.trusted_base = TRUSTED[:1]
+    return res
+
+
+PROPS.update({'C10': prop_C10, 'C11': prop_C11, 'C18': prop_C18, 'C19': prop_C19})
+TECHNIQUE.update({
+    'C10': 'static analysis: structural rules on the sorting premises (shape) + interpreted merge loop',
+    'C11': 'static analysis: finite truth table of the acceptance predicate by abstract evaluation (predtable) + no-assert lint',
+    'C18': 'static analysis: sibling-agreement and pairing rules over constructors and readers (shape) + interpreted classification',
+    'C19': 'static analysis: handler coverage of interpreter-computed may-raise sets + dataflow/shape rules on the CLI',
+})
